@@ -448,6 +448,16 @@ func (t *Tokenizer) tokenizeBuffer(buf []byte, last bool) {
 		case commentEnd:
 			t.mode = valueMap
 		case charErr:
+			if 256 < len(t.mode) && t.mode[256] == 't' {
+				// A token read byte by byte ends here just as it does when it is
+				// scanned in one go, the byte is looked at again after the token.
+				t.addToken(string(t.tmp))
+				off--
+				if t.OnlyOne {
+					continue
+				}
+				break // out of the switch, a value at depth zero is a complete document
+			}
 			t.byteError(off, t.mode, b)
 		}
 		if depth == 0 && 256 < len(t.mode) && t.mode[256] == 'v' {
